@@ -116,7 +116,13 @@ pub fn trivia_twin(src: &str, d: &Dumper, r: &mut Rng, stats: &mut Out) -> Strin
                 if g.contains('\n') && !g.contains("--") && r.chance(1, 2) {
                     // an ordinary comment on a line of its own
                     stats.bump("rewrite_comment_line");
-                    g.replacen('\n', "\n-- note\n", 1)
+                    // … one time in three a comment that merely looks like a filter (an extra dash: an ordinary comment)
+                    let text = match r.below(6) {
+                        0 => format!("--- selene: allow({})", r.pick(&["unused_variable", "undefined_variable", "manual_table_clone", "divide_by_zero", "shadowing", "empty_if"])),
+                        1 => "---- selene: deny(unused_variable)".to_owned(),
+                        _ => "-- note".to_owned(),
+                    };
+                    g.replacen('\n', &format!("\n{text}\n"), 1)
                 } else if g.contains('\n') && !g.contains("--") {
                     stats.bump("rewrite_blank_line");
                     g.replacen('\n', "\n\n", 1)
@@ -333,7 +339,7 @@ const SPECIAL: &[&str] = &["self", "_G", "shared", "type", "typeof", "Roact", "R
     "ref", "key", "children"];
 
 /// an injective renaming of script-introduced names; returns (twin source, new→old map)
-pub fn rename_twin(src: &str, ast: &full_moon::ast::Ast, d: &Dumper, chunk: &Sx, std: &StandardLibrary, r: &mut Rng, stats: &mut Out) -> Option<(String, HashMap<String, String>)> {
+pub fn rename_twin(src: &str, ast: &full_moon::ast::Ast, d: &Dumper, chunk: &Sx, std: &StandardLibrary, r: &mut Rng, stats: &mut Out, keep_underscore: bool) -> Option<(String, HashMap<String, String>)> {
     let mut var_toks = Vec::new();
     variable_tokens(chunk, &mut var_toks);
     let var_set: HashSet<usize> = var_toks.iter().copied().collect();
@@ -410,7 +416,7 @@ pub fn rename_twin(src: &str, ast: &full_moon::ast::Ast, d: &Dumper, chunk: &Sx,
         } else {
             format!("zq{}v", k)
         };
-        let fresh = if n.starts_with('_') { format!("_{base}") } else { base };
+        let fresh = if n.starts_with('_') && keep_underscore { format!("_{base}") } else { base };
         if all_text.contains(&fresh) || src.contains(&fresh) || std.global_has_fields(&fresh) {
             continue;
         }
@@ -485,15 +491,26 @@ pub fn run(args: &Args, out: &mut Out, kind: &str) {
         rb = rbx;
         let c = Checker::new(CheckerConfig::default(), rb.clone()).unwrap();
         (rb, c)
+    } else if kind == "c14p" {
+        // end-anchored ignore patterns: only the bare `_` is ignored, so a name that merely starts with `_` matches no pattern
+        // before or after any renaming, and the renamer does not keep the prefix
+        let mut config: HashMap<String, toml::value::Value> = HashMap::new();
+        for lint in ["unused_variable", "shadowing", "unscoped_variables"] {
+            let mut t = toml::value::Table::new();
+            t.insert("ignore_pattern".to_owned(), toml::value::Value::String("^_$".to_owned()));
+            config.insert(lint.to_owned(), toml::value::Value::Table(t));
+        }
+        let c = Checker::new(CheckerConfig { config, ..CheckerConfig::default() }, std51.clone()).unwrap();
+        (std51, c)
     } else {
         let c = Checker::new(CheckerConfig::default(), std51.clone()).unwrap();
         (std51, c)
     };
     const PROLOGUE_R: &str = "local function _verif_prologue_r(vx)\n  local c = Color3.new(255, 0, 0)\n  local c2 = Color3.new(1, 0.5, 0)\n  local u = UDim2.new(1, 0, 1, 0)\n  local u2 = UDim2.new(0, 5, 0, 5)\n  local u3 = UDim2.new(1, 2)\n  local u4 = UDim2.new(0.5, 0, 0.5, 0)\n  local e = Roact.createElement\n  local f1 = e(\"Frame\", { Name = vx .. \"s\", Size = u, Colour = c })\n  local f2 = Roact.createElement(\"Frame\", {\n    Name = \"hello\",\n    [Roact.Event.InputBegan] = print,\n    [Roact.Event.Clicked] = print,\n  })\n  local f3 = React.createElement(\"Frame\", { Name = \"two words\", key = 1 })\n  local f4 = React.createElement(\"Window\", { Name = vx })\n  return c, c2, u, u2, u3, u4, vx, f1, f2, f3, f4\nend\n";
     const PROLOGUE: &str = "local function _verif_prologue(vx, vy)\n  if type(vx == \"string\") then end\n  local _o = oldvalue\n  print(oldvalue, vx)\n  oldfn(vx, vy)\n  depr_param(nil, vx)\n  depr_param(vx)\n  _G.allowed_name = vx\n  _G.other_name = vy\n  if vx == 0/0 then end\n  return lib.oldfield, oldvalue\nend\n";
-    let corpus = format!("/verif/corpus/{}", if kind == "c13r" { "c13" } else if kind == "c14r" { "c14" } else { kind });
-    let rel = if kind == "c13r" { "c13" } else if kind == "c14r" { "c14" } else { kind };
-    let is_c14 = kind == "c14" || kind == "c14r";
+    let corpus = format!("/verif/corpus/{}", if kind == "c13r" { "c13" } else if kind == "c14r" || kind == "c14p" { "c14" } else { kind });
+    let rel = if kind == "c13r" { "c13" } else if kind == "c14r" || kind == "c14p" { "c14" } else { kind };
+    let is_c14 = kind == "c14" || kind == "c14r" || kind == "c14p";
     for (origin, src) in programs(args, out, &mut rng, &corpus) {
         // filter comments stay where they are (the trivia twin only *adds* blanks and ordinary comments, also between
         // a filter comment and the code it precedes); the renaming twin leaves such files alone
@@ -547,7 +564,7 @@ pub fn run(args: &Args, out: &mut Out, kind: &str) {
             } else if kind == "c13" || kind == "c13r" {
                 (trivia_twin(&src, &d, &mut rng, out), HashMap::new())
             } else {
-                match rename_twin(&src, &ast, &d, &chunk, &std51, &mut rng, out) {
+                match rename_twin(&src, &ast, &d, &chunk, &std51, &mut rng, out, kind != "c14p") {
                     Some(x) => x,
                     None => {
                         out.bump("nothing_to_rename");
